@@ -434,6 +434,10 @@ func read(file []byte, cores int) readResult {
 		res.global = append(res.global, g)
 		return nil
 	}
+	if cores == 0 { // the plain API
+		res.err = osm.ReadPBF(bytes.NewReader(file), func(e osm.Element) error { return emit(e, 0) })
+		return res
+	}
 	res.err = osm.ReadPBFWithOptions(bytes.NewReader(file), emit, osm.ReadOptions{Cores: cores})
 	return res
 }
@@ -548,7 +552,11 @@ func check(r *kit.Result, seq []el, label string, variants []bool, coreList []in
 			r.Violate("write:bad-framing", "file written for %s is not a sequence of one OSMHeader blob followed by OSMData blobs (headers=%d ok=%v)", label, hdrs, ok)
 			continue
 		}
-		for _, cores := range coreList {
+		cl := coreList
+		if viaWE {
+			cl = append([]int{0}, coreList...) // 0 = osm.ReadPBF
+		}
+		for _, cores := range cl {
 			r.Evals++
 			var res readResult
 			cls, msg := kit.Catch(func() { res = read(file, cores) })
@@ -579,7 +587,11 @@ func check(r *kit.Result, seq []el, label string, variants []bool, coreList []in
 					}
 				}
 				if !bad {
-					r.AddOutcome(fmt.Sprintf("ok:cores1:blobs%s", blobClass(blobs)))
+					if cores == 0 {
+						r.AddOutcome(fmt.Sprintf("ok:ReadPBF:blobs%s", blobClass(blobs)))
+					} else {
+						r.AddOutcome(fmt.Sprintf("ok:cores1:blobs%s", blobClass(blobs)))
+					}
 				}
 				continue
 			}
@@ -900,7 +912,7 @@ func probe(r *kit.Result, cores int) {
 			select {
 			case <-waySeen:
 				overtaken = true
-			case <-time.After(1500 * time.Millisecond):
+			case <-time.After(5 * time.Second):
 			}
 			mu.Lock()
 			order = append(order, 'N')
@@ -999,7 +1011,7 @@ func main() {
 	kit.Main(&kit.Check{
 		ID:    "C27",
 		Level: "exploration",
-		Rule: "Case = one written sequence; each is written with osm.NewWriter (final Flush) and read back with osm.ReadPBFWithOptions using 1, 2, 3 and 4 reader cores (real goroutines). " +
+		Rule: "Case = one written sequence; each is written with osm.NewWriter (final Flush) and read back with osm.ReadPBFWithOptions using 1, 2, 3 and 4 reader cores (real goroutines); sequences of length <= 3 are additionally written through Writer.WriteElement and read with osm.ReadPBF. " +
 			"Sections: S = every sequence up to the length bound over the full alphabet (nodes/ways/relations with empty, repeated and role/key/value-shared strings, IDs incl. 0, negative, MinInt64, MaxInt64, coordinates incl. ±90/±180, sub-granularity, out-of-range-but-representable; F = explicit Flush, the writer's block-overflow transition); " +
 			"L = longer sequences over a pruned alphabet; M = macro sequences of pairwise distinct elements that overflow blocks (7999/8000/8001 of a type with every short prefix/suffix, 16001+, all orders of three overflowing runs, resumed types, strict alternations); P = deterministic cross-block order probe. " +
 			"A sequence is non-trivial when it contains at least one element. Oracle: the input itself (see file comment).",
@@ -1019,7 +1031,7 @@ func main() {
 			var secs []*section
 			var bound string
 			if tier == "thorough" {
-				pruned := pick(all, "N1", "W1", "R1", "F", "N3", "W2", "R2", "N4")
+				pruned := pick(all, "N1", "W1", "R1", "F", "N3", "W2", "R2", "N4", "R3")
 				secs = []*section{
 					{alpha: all, minLen: 0, maxLen: 4},
 					{alpha: pruned, minLen: 5, maxLen: 6},
